@@ -204,9 +204,14 @@ package codegen
 //@   hint rOff(m0, s0) == int(m0[s0]) && rCnt(m0, s0) == int(m0[rOff(m0, s0)]) && rFlags(m0, s0) == int(m0[rOff(m0, s0) + 1]) && rN(m0, s0) == int(m0[rOff(m0, s0) + 2])
 //@   let greedyRow = rFlags(m0, s0) % 2 == 0
 //@   let hit = exists k int :: 0 <= k && k < rN(m0, s0) && rLo(m0, s0, k) <= r && r <= rHi(m0, s0, k)
-//   naT: actions in the row; na: actions that run (none while nothing is pending: an empty match, C11)
+//   naT: actions in the row; na: actions that run (none unless a character was consumed since an action list last ran: an empty match, C11)
 //@   let naT = rNAct(m0, s0)
-//@   let na = ite(old(l.pending), rNAct(m0, s0), 0)
+//@   let na = ite(old(l.moved), rNAct(m0, s0), 0)
+//@   requires l.moved ==> l.pending
+//@   ensures l.moved ==> l.pending
+//@   ensures result == 0 ==> l.moved
+//@   ensures (result == 1 || result == 2 || result == 3) ==> !l.moved
+//@   ensures (result == 4 || result == -1) ==> l.moved == old(l.moved)
 //@   ensures result == 0 || result == 1 || result == 2 || result == 3 || result == 4 || result == -1
 //   a transition is taken exactly when the row is not a non-greedy accepting one and some range holds r
 //@   ensures result == 0 <==> (greedyRow && hit)
@@ -231,7 +236,7 @@ package codegen
 //@   ensures (result != 0 && na == 3 && rAct(m0, s0, 0) == 2 && rAct(m0, s0, 1) == 1 && old(len(l.modeStack)) > 0) ==> result == rAct(m0, s0, 2) - 2 && l.mode == _lexerModes[rPar(m0, s0, 1)] && len(l.modeStack) == old(len(l.modeStack)) && l.modeStack[len(l.modeStack) - 1] == old(l.modeStack[len(l.modeStack) - 1])
 //   the machine stays well formed
 //@   ensures wfMode(l.mode) && (result != -1 ==> 0 <= l.state && l.state < nstates(l.mode))
-//@   modifies l.token, l.state, l.mode, l.modeStack, l.modeStack[*], l.pending
+//@   modifies l.token, l.state, l.mode, l.modeStack, l.modeStack[*], l.pending, l.moved
 //@   requires len(_lexerModes) >= 1 && (base(l.modeStack) != base(_lexerModes))
 //@   ensures base(l.modeStack) != base(_lexerModes)
 //@   ensures forall q int :: {l.modeStack[q]} 0 <= q && q < len(l.modeStack) ==> wfMode(l.modeStack[q])
@@ -242,7 +247,7 @@ package codegen
 //@   return hint (ab <= i && (i - ab) % 2 == 0) ==> tableFacts
 //@   call Push 0 hint tableFacts
 //@   loop 0 invariant 0 <= b && b <= e && e <= gotoN && mode == m0 && l == old(l) && i == rOff(m0, s0) + 3 && gotoN == rN(m0, s0) && end == rOff(m0, s0) + 1 + rCnt(m0, s0) && r == old(r)
-//@   loop 0 invariant l.state == s0 && l.mode == m0 && l.modeStack == old(l.modeStack) && l.token == old(l.token) && l.pending == old(l.pending)
+//@   loop 0 invariant l.state == s0 && l.mode == m0 && l.modeStack == old(l.modeStack) && l.token == old(l.token) && l.pending == old(l.pending) && l.moved == old(l.moved)
 //@   loop 0 invariant forall k int :: {rHi(m0, s0, k)} 0 <= k && k < b ==> rHi(m0, s0, k) < r
 //@   loop 0 invariant forall k int :: {rLo(m0, s0, k)} e <= k && k < rN(m0, s0) ==> r < rLo(m0, s0, k)
 //@   loop 0 invariant unchangedOld(fields(_LexerStateMachine), *l) && unchangedOld(elems([]uint32))
@@ -250,12 +255,12 @@ package codegen
 //@   loop 0 decreases e - b
 //@   loop 1 hint rAct(m0, s0, jj - 1) == int(mode[i-2]) && rPar(m0, s0, jj - 1) == int(mode[i-1])
 //@   loop 1 invariant mode == m0 && l == old(l) && r == old(r) && end == ab + 2*naT && ab <= i && i <= end && (i - ab) % 2 == 0
-//@   loop 1 invariant l.state == s0 && l.token == old(l.token) && l.pending == old(l.pending) && (i < end ==> old(l.pending))
+//@   loop 1 invariant l.state == s0 && l.token == old(l.token) && l.pending == old(l.pending) && l.moved == old(l.moved) && (i < end ==> old(l.moved))
 //@   loop 1 invariant wfMode(l.mode) && base(l.modeStack) != base(_lexerModes)
 //@   loop 1 invariant forall q int :: {l.modeStack[q]} 0 <= q && q < len(l.modeStack) ==> wfMode(l.modeStack[q])
 //@   loop 1 invariant forall q int :: {_lexerModes[q]} 0 <= q && q < len(_lexerModes) ==> wfMode(_lexerModes[q])
-//@   loop 1 invariant old(l.pending) ==> forall j2 int :: {rAct(m0, s0, j2)} 0 <= j2 && j2 < jj ==> rAct(m0, s0, j2) == 1 || rAct(m0, s0, j2) == 2
-//@   loop 1 invariant (jj == 0 || !old(l.pending)) ==> l.mode == m0 && l.modeStack == old(l.modeStack) && (forall q int :: {l.modeStack[q]} 0 <= q && q < len(l.modeStack) ==> l.modeStack[q] == old(l.modeStack[q]))
+//@   loop 1 invariant old(l.moved) ==> forall j2 int :: {rAct(m0, s0, j2)} 0 <= j2 && j2 < jj ==> rAct(m0, s0, j2) == 1 || rAct(m0, s0, j2) == 2
+//@   loop 1 invariant (jj == 0 || !old(l.moved)) ==> l.mode == m0 && l.modeStack == old(l.modeStack) && (forall q int :: {l.modeStack[q]} 0 <= q && q < len(l.modeStack) ==> l.modeStack[q] == old(l.modeStack[q]))
 //@   loop 1 invariant (jj == 1 && rAct(m0, s0, 0) == 1) ==> l.mode == _lexerModes[rPar(m0, s0, 0)] && len(l.modeStack) == old(len(l.modeStack)) + 1 && l.modeStack[old(len(l.modeStack))] == m0
 //@   loop 1 invariant (jj == 1 && rAct(m0, s0, 0) == 2) ==> old(len(l.modeStack)) > 0 && l.mode == old(l.modeStack[len(l.modeStack) - 1]) && len(l.modeStack) == old(len(l.modeStack)) - 1
 //@   loop 1 invariant (jj == 2 && rAct(m0, s0, 0) == 2 && rAct(m0, s0, 1) == 1) ==> old(len(l.modeStack)) > 0 && l.mode == _lexerModes[rPar(m0, s0, 1)] && len(l.modeStack) == old(len(l.modeStack)) && l.modeStack[len(l.modeStack) - 1] == old(l.modeStack[len(l.modeStack) - 1])
@@ -391,8 +396,8 @@ package codegen
 //
 //@ func _LexerStateMachine.Reset
 //@   requires !isnil(l)
-//@   ensures isnil(l.mode) && l.state == 0 && !l.pending && l.modeStack == old(l.modeStack) && l.token == old(l.token)
-//@   modifies l.mode, l.state, l.pending
+//@   ensures isnil(l.mode) && l.state == 0 && !l.pending && !l.moved && l.modeStack == old(l.modeStack) && l.token == old(l.token)
+//@   modifies l.mode, l.state, l.pending, l.moved
 //
 //@ func _LexerStateMachine.Token
 //@   requires !isnil(l)
